@@ -952,7 +952,7 @@ func callBuiltin(caller *frame, callpos token.Pos, fn *ssa.Builtin, args []value
 		case SymStr:
 			return len(x)
 		case *Rope:
-			panic(unsupported{"len of a formatted message with symbolic parts"})
+			return i.ropeLen(x)
 		case array:
 			return len(x)
 		case *value:
